@@ -13,11 +13,11 @@ cp /verif/known_findings.json "$W/verif/"
 sed -i "s|/repo/|$W/repo/|g" "$W/verif/sim/Cargo.toml"
 cd "$W/verif/sim" && CARGO_NET_OFFLINE=true cargo build --release --offline > "$W/build.log" 2>&1 || { echo "build failed"; tail -20 "$W/build.log"; cd /; git -C /repo worktree remove --force "$W/repo"; rm -rf "$W"; exit 2; }
 if [ -n "$ONE" ]; then (ulimit -v 60000000; VERIF_ROOT="$W/verif" ./target/release/a2lsim one "$PROP" $ONE > "$W/check.log" 2>&1); RC=$?; cat "$W/check.log" | cut -c1-600; else
-(ulimit -v 60000000; VERIF_ROOT="$W/verif" ./target/release/a2lsim check "$PROP" "$TIER" > "$W/check.log" 2>&1); RC=$?
+(ulimit -v 60000000; VERIF_WATCHDOG_SECS=${VERIF_WATCHDOG_SECS:-300} VERIF_ROOT="$W/verif" ./target/release/a2lsim check "$PROP" "$TIER" > "$W/check.log" 2>&1); RC=$?
 fi
 echo "$(basename "$PATCH") $PROP $TIER exit=$RC $(grep -a -m1 '^violation:' "$W/check.log" | cut -c1-260)"
 grep -a -E "^runs=" "$W/check.log" | cut -c1-120
 RP=$(grep -a -m1 "^VIOLATION" "$W/check.log" | sed "s/.*replay=//")
-if [ -n "$RP" ]; then VERIF_ROOT="$W/verif" ./target/release/a2lsim replay "$RP" > "$W/replay.log" 2>&1; echo "replay in a fresh process: exit=$? $(grep -a -m1 -E "^reproduced|^different|^not reproduced" "$W/replay.log")"; fi
+if [ -n "$RP" ]; then VERIF_WATCHDOG_SECS=${VERIF_WATCHDOG_SECS:-300} VERIF_ROOT="$W/verif" ./target/release/a2lsim replay "$RP" > "$W/replay.log" 2>&1; echo "replay in a fresh process: exit=$? $(grep -a -m1 -E "^reproduced|^different|^not reproduced" "$W/replay.log")"; fi
 cd /; git -C /repo worktree remove --force "$W/repo"; rm -rf "$W"
 exit $RC
